@@ -529,7 +529,7 @@ func init() {
 			return
 		}
 		// frozen adversarial inputs (witnesses of recorded findings and fixed defects, replayed every run)
-		for _, src := range []string{"\"﻿*\"", "8+.6Ti", "'''\n\ta\\\n\tb\n\t'''", "x: \"\"\"\n\ta\\\n\tb\n\t\"\"\"", "'''\n\t'''x\n'''", "_1.5Mi", "._0", "0_7.5",
+		for _, src := range []string{"\"\ufeff*\"", "8+.6Ti", "'''\n\ta\\\n\tb\n\t'''", "x: \"\"\"\n\ta\\\n\tb\n\t\"\"\"", "'''\n\t'''x\n'''", "_1.5Mi", "._0", "0_7.5",
 			"package", "import", " package", "// c\nimport", "if - !=1", "let !~ a \n", "import (\n\t\"a\"\n\t\"\"b\"\n)\n"} {
 			c9parseOne(c, src, "frozen")
 		}
